@@ -351,8 +351,24 @@ LEDGER_TEXT = ('Theorems (Coq): conservation of owned values for every operation
                'released_balance), *_init stores never drop an empty cell nor lose an occupied one, release skips empty cells and drops each occupied one once, '
                'the state after a push does not depend on the store mode. Tie: owned-item histories with a recording Drop/Clone item in three layouts, ledger events compared '
                'per step, live objects compared at the end of each history; refinement Model ~ Spec as for C01.')
+def c09_zst(ctx, seqrun, stats, divs):
+    """zero-sized item types (outside the Model, which keeps a value per cell): exact drop ledger on rule-following histories"""
+    bindir, log = ctx.build_harness(('zstprobe',))
+    if bindir is None:
+        ctx.violation('zstprobe does not build against the current /repo tree', log[-3000:], no_input=True); return
+    n = 2000 if ctx.tier == 'quick' else 100000
+    rc, out = common.sh([os.path.join(bindir, 'zstprobe'), str(ctx.seed), str(n)], timeout=1800)
+    m = re.search(r'ok histories=(\d+) steps=(\d+)', out)
+    if m:
+        ctx.notes['zst_probe'] = {'histories': int(m.group(1)), 'steps': int(m.group(2))}
+        stats.histories += int(m.group(1)); stats.steps += int(m.group(2)); return
+    mm = re.search(r'MISMATCH (.*)', out)
+    what = mm.group(1) if mm else 'zstprobe failed: ' + out[-800:]
+    ctx.violation('zero-sized item type with a destructor (new_zeroed + *_init stores + pop_move): ' + what.split(' : ')[-1][:300],
+                  f'## replay: .build/cargo/debug/zstprobe {ctx.seed} {n}\n## history: {what}\n', no_input=(mm is None))
+
 CHECKS['C08'] = LedgerCheck('C08', is_ledger, LEDGER_TEXT)
-CHECKS['C09'] = LedgerCheck('C09', is_ledger, LEDGER_TEXT)
+CHECKS['C09'] = LedgerCheck('C09', is_ledger, LEDGER_TEXT + ' Zero-sized item types (no bytes: outside the Model): exact drop ledger on rule-following histories (zstprobe).', extra=c09_zst)
 
 
 # ------------------------------------------------------------------------------------------- async: C14, C15
@@ -596,6 +612,19 @@ class ConcCheck(SeqCheck):
     def script_suite(self, ctx, seqrun, stats, divs):
         if ctx.prop == 'C07': return run_drop_suite(self, ctx, stats)
         run_script_suite(self, ctx, stats)
+        self.send_bad = []
+        if ctx.prop == 'C03':
+            # "safe programs are free of data races": an iterator of a LOCAL buffer (plain cells, no release/acquire) must not be able
+            # to reach a second thread, by value or by reference (rustc decides, as in C16)
+            bindir, log = ctx.build_harness(('sendprobe',))
+            if bindir is None: return
+            rc, out = common.sh([os.path.join(bindir, 'sendprobe')])
+            for l in out.split('\n'):
+                m = re.match(r'(\w+) (\w+) conc=(\d) item_send=(\d) item_sync=(\d) => send=(\d) sync=(\d)\s+# (.*)', l)
+                if not m: continue
+                conc, send, sync = int(m.group(3)), int(m.group(6)), int(m.group(7))
+                if (send and not conc) or sync or (m.group(1) == 'Ref' and send): self.send_bad.append((m.group(8), conc, send, sync))
+            ctx.notes['send_probe_rows_for_C03'] = len(re.findall(r'=> send=', out))
     def suites(self, ctx):
         s = ctx.seed
         if ctx.tier == 'quick':
@@ -635,6 +664,15 @@ class ConcCheck(SeqCheck):
                                   f'## model-level failing execution (evaluated by coqc on this run): {term} = true\n## {story}\n## observed profile (gen/Profile.v): {prof}\n'
                                   + ('## first diverging event trace:\n' + divs[0].replay_text() if divs else ''))
                     return
+        if getattr(self, 'send_bad', None) and ctx.prop == 'C03':
+            t, conc, send, sync = self.send_bad[0]
+            how = 'is Sync: a reference to it can be used from a second thread' if sync else 'is Send although it belongs to a local buffer (plain, unsynchronised index cells)'
+            ctx.violation(f'`{t}` {how}: safe code can access one buffer from two threads with no happens-before between the accesses',
+                          f'## rustc accepts (probe crate harness/src/bin/sendprobe.rs): {t} send={send} sync={sync} concurrent_buffer={conc}\n'
+                          '// use mutringbuf::*; use mutringbuf::iterators::*;\n'
+                          f'// fn assert_send<T: Send>() {{}}  fn main() {{ assert_send::<{t}>(); }}   // compiles: the iterator can be moved into std::thread::spawn\n'
+                          f'## {len(self.send_bad)} such types')
+            return
         if self.script_bad and ctx.prop == 'C07':
             what, text, path = min(self.script_bad, key=lambda b: len(b[1]))
             concrete = any(k in what for k in ('DOUBLE FREE', 'USE AFTER FREE', 'LEAK', 'frees=', 'dropped', 'alive'))
@@ -689,8 +727,41 @@ class VmemCheck(SeqCheck):
             return None
         return os.path.join(bindir, 'seqrun')
 
+def c17_pagemul(ctx, seqrun, stats, divs):
+    """requested minimum -> length: `get_page_size_mul(n)` and the length of `default(n)` / `new_zeroed(n)` buffers of the vmem build
+    against the Model's `page_mul` evaluated by coqc, at the page boundaries and at seeded random minimums"""
+    import random
+    rc, out = common.sh([seqrun, '--pagemul', '1'])
+    m = re.search(r'page (\d+)', out)
+    if not m:
+        ctx.violation('the vmem harness does not report the page size', out[-1500:], no_input=True); return
+    page = int(m.group(1))
+    rnd = random.Random(int(ctx.seed))
+    ns = sorted(set([1, 2, page - 1, page, page + 1, 2 * page - 1, 2 * page, 2 * page + 1, 3 * page, 3 * page + 1] +
+                    [rnd.randrange(1, 3 * page + 2) for _ in range(12 if ctx.tier == 'quick' else 120)]))
+    rc, out = common.sh([seqrun, '--pagemul'] + [str(n) for n in ns], timeout=1200)
+    got = {int(a): (int(b), int(c), int(d)) for a, b, c, d in re.findall(r'pagemul (\d+) (\d+) (-?\d+) (-?\d+)', out)}
+    src = ('From Coq Require Import List NArith. Import ListNotations.\nRequire Import MRB.Model.Vmem.\n'
+           f'Eval vm_compute in map (fun n => N.of_nat (page_mul (N.to_nat {page}%N) (N.to_nat n))) [' + '; '.join(f'{n}%N' for n in ns) + '].\n')
+    pth = os.path.join(ctx.work, 'pagemul.v'); open(pth, 'w').write(src)
+    with common.Lock('coq'):
+        ctx._make(['Model/Vmem.vo'])
+        rc, mo = common.sh(['coqc', '-Q', common.COQ, 'MRB', pth], cwd=ctx.work)
+    exp = [int(x) for x in re.findall(r'(\d+)%N', mo)]
+    if rc != 0 or len(exp) != len(ns):
+        ctx.violation('the Model page rounding could not be evaluated', mo[-1500:], no_input=True); return
+    ctx.notes['pagemul'] = {'page': page, 'minimums': len(ns)}
+    stats.steps += len(ns)
+    for n, e in zip(ns, exp):
+        g = got.get(n)
+        if g is None or g != (e, e, e):
+            ctx.violation(f'a vmem buffer requested with minimum {n} has length {g[1] if g else None} (get_page_size_mul = {g[0] if g else None}); the least whole number of pages is {e}',
+                          f'## requested minimum {n}, page size {page}: expected length {e} (Model page_mul, theorem C17_round), got get_page_size_mul={g}\n'
+                          f'## replay: .build/cargo-vmem/debug/seqrun --pagemul {n}\n')
+            return
+
 CHECKS['C17'] = VmemCheck('C17', lambda d: True,
     'Theorems (Coq): the call sequence of vmem_helper::new regenerated from the source builds two views of one shared object at offset 0 that holds the supplied data (C17_source_closed, C17_mirror), '
     'page rounding is the least multiple (C17_round), a contiguous window resolves to the ring slots (C17_slice), the release drops items once before unmapping both halves. '
     'Tie: the whole sequential correspondence on a --features vmem build (1-3 pages, element sizes 4/8/16/24 bytes, histories positioned at the physical end: single mirrored slices, '
-    'initial contents, ledger, /proc/self/maps after release).')
+    'initial contents, ledger, /proc/self/maps after release).', extra=c17_pagemul)
